@@ -146,6 +146,9 @@ func genBlocks(r *h.Rand, n int, valued bool, base int64, mode int) []blk {
 		} else {
 			b.min = t
 			b.max = t + int64(r.Intn(10))
+			if len(out) > 0 && b.max < out[len(out)-1].max && r.Chance(0.95) {
+				b.max = out[len(out)-1].max // max times non-decreasing (the specified domain); rarely not
+			}
 			b.data = rawBlock(r)
 			switch mode {
 			case 0: // disjoint, possibly adjacent
